@@ -51,6 +51,10 @@ class GenericGen:
     def syms(self, prefix: str, n: int, **assumptions):
         return [self.sym(f"{prefix}{i}", **assumptions) for i in range(n)]
 
+    def fun(self, name: str, args):
+        """a generic smooth function of `args`: an undefined SymPy function"""
+        return sp.Function(name, real=True)(*args)
+
 
 class PointGen:
     generic = False
@@ -63,6 +67,19 @@ class PointGen:
 
     def syms(self, prefix: str, n: int, **assumptions):
         return [self.sym(f"{prefix}{i}") for i in range(n)]
+
+    def fun(self, name: str, args):
+        """replay instance of a generic function: a fixed non-trivial smooth function chosen by name + point seed"""
+        rng = random.Random(f"{name}|{self.point.get('__seed__', 0)}")
+        a = list(args)
+        e = sp.Integer(rng.randint(-3, 3))
+        for i, x in enumerate(a):
+            e += sp.Rational(rng.randint(-5, 5), rng.randint(1, 3)) * x + sp.Rational(rng.randint(-3, 3), 2) * x ** 2
+            for y in a[i + 1:]:
+                e += rng.randint(-3, 3) * x * y
+        if a:
+            e += rng.randint(1, 3) * sp.sin(a[0] + 2 * a[-1]) + sp.Rational(rng.randint(1, 3), 2) * a[0] * a[len(a) // 2] * a[-1]
+        return e
 
 
 @dataclass
@@ -188,13 +205,20 @@ def discharge(law: Law, shape, pid: str, replay_ref: str) -> Ob:
 def eval_case_at(law: Law, shape, pt) -> tuple[Optional[bool], list]:
     """Run the real functions at a concrete point; (assumptions hold?, residual values)."""
     case = law.build(shape, PointGen(pt))
+    # coordinates / parameters that are not generator inputs (base scalars ...) get fixed seeded values too
+    free = set()
+    for r in list(case.residuals) + list(case.assume):
+        free |= sp.sympify(r).free_symbols
+    rng = random.Random(f"free|{pt.get('__seed__', 0)}")
+    sub = {s: sp.Rational(rng.randint(1, 9), rng.randint(2, 7)) for s in sorted(free, key=str)}
     for a in case.assume:
-        h = _holds(a)
+        h = _holds(a.subs(sub))
         if h is not True:
             return False, []
     vals = []
     for r in case.residuals:
-        v = sp.nsimplify(sp.simplify(r)) if not sp.sympify(r).is_number else sp.sympify(r)
+        r = sp.sympify(r).subs(sub).doit()
+        v = r if r.is_Rational else sp.N(r, 30)
         vals.append(v)
     return True, vals
 
@@ -202,6 +226,7 @@ def eval_case_at(law: Law, shape, pt) -> tuple[Optional[bool], list]:
 def find_failing_point(law: Law, shape, names, rng, tries=60):
     for _ in range(tries):
         pt = {n: sp.Rational(rng.randint(-9, 9), rng.randint(1, 4)) for n in names}
+        pt["__seed__"] = rng.randint(0, 10 ** 6)
         try:
             ok, vals = eval_case_at(law, shape, pt)
         except Exception:
@@ -242,7 +267,7 @@ def replay_law(replay_ref: str, law_name: str, shape, pt):
             print("raises as the contract says")
             return
         raise AssertionError(f"{law_name} shape {shape}: expected {case.raises.__name__}")
-    pt = {k: sp.Rational(v) for k, v in pt.items()}
+    pt = {k: (int(v) if k == "__seed__" else sp.Rational(v)) for k, v in pt.items()}
     ok, vals = eval_case_at(law, shape, pt)
     print("inputs", pt)
     print("residuals", vals)
